@@ -26,6 +26,9 @@ class Latch(Logic):
             
     def structureName(self):
         msg = 'Latch{}'.format(self.q.getWidth())
+        # every port width is part of the module interface, encode the unusual ones
+        if (self.d.getWidth() != self.q.getWidth()): msg += '_d{}'.format(self.d.getWidth())
+        if (self.e.getWidth() != 1): msg += '_e{}'.format(self.e.getWidth())
         return msg
     
 class Reg(Logic):
@@ -116,8 +119,10 @@ class Reg(Logic):
     def structureName(self):
         msg = 'Reg{}'.format(self.q.getWidth())
         
-        if not(self.r is None): msg += 'R'
-        if not(self.e is None): msg += 'E'
+        # every port width is part of the module interface, encode the unusual ones
+        if (self.d.getWidth() != self.q.getWidth()): msg += '_d{}_'.format(self.d.getWidth())
+        if not(self.r is None): msg += 'R' if (self.r.getWidth() == 1) else 'R{}'.format(self.r.getWidth())
+        if not(self.e is None): msg += 'E' if (self.e.getWidth() == 1) else 'E{}'.format(self.e.getWidth())
         # a minus sign is not legal in a Verilog identifier
         if not(self.reset_value == 0): msg += '_v{}'.format(self.reset_value).replace('-', 'm')
         
